@@ -389,6 +389,24 @@ func checkTypestate(c *Ctx, r *Run, m *lockModel) {
 				blockingSend = c.Pos(s.Pos())
 			}
 		})
+		// ... also through helper methods of the handler that the transition calls (h.send(msg))
+		allInstrs(A, func(in ssa.Instruction) {
+			cal := staticCallee(in)
+			if cal == nil || cal == A {
+				return
+			}
+			if _, isM := m.recvOf[cal]; !isM {
+				return
+			}
+			allInstrs(cal, func(x ssa.Instruction) {
+				if sd, ok := x.(*ssa.Send); ok && m.fieldsOf(cal, sd.Chan)[ts.outF] {
+					blockingSend = c.Pos(sd.Pos()) + " (in " + cal.Name() + ", called from the transition)"
+				}
+				if sl, ok := x.(*ssa.Select); ok && sl.Blocking {
+					blockingSend = c.Pos(sl.Pos()) + " (in " + cal.Name() + ", called from the transition)"
+				}
+			})
+		})
 		okStore := errStore != nil && closeIn != nil && instrReaches(errStore, closeIn) && !instrReaches(closeIn, errStore)
 		// the store is on the err != nil edge
 		if okStore {
